@@ -13,6 +13,9 @@ stream and a schedule (when the reader polls relative to the arrival of the segm
   nothing afterwards, `is_stopped()` iff logout.
 
 Malformed streams (outside the property's quantifier) are compared for model/implementation agreement only.
+Megabyte backlogs (`gen_mega_cases`: 1.2 - 8.5 MiB of well-formed frames in one segment / 64 KiB segments back to back / a megabyte
+first and the rest paced) are judged by the oracle only (the list-based model costs ticks x buffered bytes); their replays are the
+compact high-level form (`kind: stream-hl`).
 """
 import asyncio
 import itertools
@@ -312,6 +315,10 @@ class FixSide:
 
     @staticmethod
     def undesc(d):
+        # compact form for megabyte streams: a value `{'fill': 'z', 'n': 60000}` stands for that character repeated
+        if any(isinstance(v, dict) for _, v in d['hdr'] + d['body']):
+            ex = lambda v: v['fill'] * int(v['n']) if isinstance(v, dict) else v
+            return dict(d, hdr=[[k, ex(v)] for k, v in d['hdr']], body=[[k, ex(v)] for k, v in d['body']])
         return d
 
     @staticmethod
@@ -1277,6 +1284,74 @@ def gen_big_cases(ctx, side, quick):
         yield 'hb-burst-64k:via-session', {'proto': side.name, 'msgs': descs, 'cuts': cuts, 'polls': polls, 'via': 'session'}
 
 
+MIB = 1 << 20
+MEGA_TOTALS_QUICK = [MIB + MIB // 5, MIB + MIB // 2, 2 * MIB]             # 1.2 .. 2 MiB
+MEGA_TOTALS = MEGA_TOTALS_QUICK + [2 * MIB + MIB // 2, 4 * MIB + MIB // 4, 8 * MIB + MIB // 2]
+
+
+def gen_mega_cases(ctx, side, quick):
+    """"any segmentation, any timing" includes a BACKLOG of megabytes: well-formed streams of 1.2 - 2 MiB (thorough: up to 8.5 MiB) —
+    soup: maximum-size / mixed-size data packets (20+ frames of 64 KiB); FIX: frames with a text field of tens of kilobytes or a
+    few frames of several hundred — that reach the reader faster than it polls: everything in ONE segment, 64 KiB segments back to
+    back with no poll in between, a megabyte first and the rest paced; in front of them a few small messages (the buffer is not
+    empty when the backlog starts), behind them small ones and (every other case) a logout — beyond every threshold at which a
+    reader might compact, recycle or bound its buffer.  The same stream delivered one frame per segment with a poll in between is
+    the control (thorough tier).  Messages are told apart by fill character and size; descriptions are compact (`fill`), so a
+    replay of such a case is a few hundred bytes."""
+    rng = ctx.rng
+    totals = [rng.choice(MEGA_TOTALS_QUICK)] if quick else MEGA_TOTALS * 2
+    for total in totals:
+        shape = rng.choice(['max', 'max', 'mixed'] if quick else ['max', 'mixed', 'mixed', 'few-huge'])
+        descs, size_sum, i = [], 0, 0
+        pre = side.gen_msgs(rng, rng.randint(0, 2), True)
+        while size_sum < total:
+            if side.name == 'soup':
+                n = 65534 - (i % 7) if shape == 'max' else rng.choice([65534, 65533, 40000, 32768, 32767, 20000, 9000])
+                fillb = 48 + (i * 7) % 75
+                k = rng.choice(['seqData', 'seqData', 'unseqData'])
+                descs.append(f'({k} (fill {fillb} {n}))')
+                size_sum += n + 3
+            else:
+                n = (60000 - (i % 7) if shape == 'max' else rng.choice([60000, 65000, 70000, 33000, 12000]) if shape == 'mixed'
+                     else rng.choice([400000, 700000]))
+                descs.append({'ver': 'FIX.4.4', 'type': rng.choice(['D', '8']), 'hdr': [[34, str(i + 1)]],
+                              'body': [[58, {'fill': 'abcdefghjkmnpqrstuvwxyz'[i % 23], 'n': n}]]})
+                size_sum += n + 40
+            i += 1
+        n_big = len(descs)
+        post = side.gen_msgs(rng, rng.randint(1, 3), True)
+        with_logout = rng.random() < 0.5
+        if with_logout:
+            post = post[:1] + [rng.choice(SOUP_LOGOUT) if side.name == 'soup' else {'ver': 'FIX.4.4', 'type': '5', 'hdr': [], 'body': []}] + post[1:]
+        descs = [side.desc(m) for m in pre] + descs + [side.desc(m) for m in post]
+        frames = [side.frame(side.undesc(d)) for d in descs]
+        ends = list(itertools.accumulate(len(f) for f in frames))
+        L, b0 = ends[-1], (ends[len(pre) - 1] if pre else 0)
+        modes = ['one-segment', '64k-back-to-back', 'megabyte-then-paced']
+        for mode in ([rng.choice(modes[:2] * 2 + modes[2:])] if quick else modes + ['paced']):
+            if mode == 'one-segment':
+                cuts, polls = [], [1]
+            elif mode == '64k-back-to-back':
+                cuts = list(range(b0 + 65536, L, 65536))
+                polls = [0] * len(cuts) + [1]
+            elif mode == 'megabyte-then-paced':
+                k = next(j for j, e in enumerate(ends) if e - b0 > MIB + MIB // 10 or j == len(ends) - 1)
+                cuts = [e for e in ends[k:-1]]
+                polls = [rng.choice([0, 1])] + [rng.choice([1, 1, 2]) for _ in cuts]
+            else:       # control: one frame per segment, the reader polls in between (the buffer drains every time)
+                cuts = ends[:-1]
+                polls = [1] * len(ends)
+            hl = {'proto': side.name, 'msgs': descs, 'cuts': cuts, 'polls': polls}
+            yield f'mega:{mode}:{shape}' + (':logout-behind' if with_logout else ''), hl
+        ctx.count(f'{side.name}:mega:frames', n_big)
+        ctx.count(f'{side.name}:mega:KiB', L // 1024)
+
+
+def compact_replay(hl, what):
+    """replay dict of a megabyte case: the high-level form (compact message descriptions, cuts, polls); the script is rebuilt"""
+    return {'kind': 'stream-hl', 'proto': hl['proto'], 'hl': {k: v for k, v in hl.items() if v is not None}, 'what': what}
+
+
 def jitter(case, rng):
     """replace some whole poll periods by half periods / plain loop turns (timing only; the event log records what happened)"""
     out = []
@@ -1486,7 +1561,7 @@ def run(ctx):
         side = SIDES[hl['proto']] if hl else SIDES[case['proto']]
         if case is None:
             case = hl_to_case(hl)
-            if rng.random() < 0.25:
+            if rng.random() < 0.25 and not label.startswith('mega:'):      # (a megabyte case is replayed from its high-level form)
                 case = jitter(case, rng)
         key = json.dumps([case['proto'], case['msgs'], case['script'], case.get('stubs', {}), case.get('via')], default=repr)
         ctx.case(key, nontrivial=len(case['msgs']) > 0, sample_every=997)
@@ -1526,7 +1601,15 @@ def run(ctx):
                 r2 = evaluate(ctx, runner, c2)
                 if r2['fail']:
                     rep, res = c2, r2
-            ctx.violation(res['fail'][0], dict(rep, what=res['fail']))
+            if hl and sum(len(x) for x in rep.get('frames', [])) > 400_000:
+                # (a megabyte stream: the replay is the compact high-level form — of the shrunk case when it was shrunk)
+                ctx.violation(res['fail'][0], compact_replay(small if rep is not case else hl, res['fail']))
+            else:
+                ctx.violation(res['fail'][0], dict(rep, what=res['fail']))
+        if label.startswith('mega:'):
+            # megabytes of hex: not kept for the model (its cost is ticks x buffered bytes), the oracle has spoken
+            ctx.count('model-skipped:ticks-x-buffer-too-large')
+            return
         keep((side, case, res))
 
     # ---- corpus first
@@ -1547,6 +1630,10 @@ def run(ctx):
                 break
             do_case(label, hl)
         for label, hl in gen_big_cases(ctx, side, quick):
+            if runner.hangs >= 2:
+                break
+            do_case(label, hl)
+        for label, hl in gen_mega_cases(ctx, side, quick):
             if runner.hangs >= 2:
                 break
             do_case(label, hl)
@@ -1598,6 +1685,20 @@ def replay(ctx, path):
         ctx.case('replay-marker')
         if a != 'true':
             ctx.disagree('a generated FIX frame is outside the theorems\' hypothesis', rep)
+        return
+    if rep.get('kind') == 'stream-hl':            # compact form (megabyte streams): messages + cuts + polls, the script is rebuilt
+        what = rep.get('what')
+        rep = hl_to_case(rep['hl'])
+        print('stream   :', len(rep['msgs']), 'messages,', sum(len(f) for f in rep['frames']) // 2, 'bytes, cuts', rep['cuts'][:40])
+        res = evaluate(ctx, Runner(), rep)
+        ctx.case('replay-marker')
+        ctx.case('replay-marker-2')
+        print('emitted  :', [x[:40] for x in (res.get('out') or [])])
+        print('final    :', {k: (v if k != 'buf' else v[:40]) for k, v in (res.get('fin') or {}).items()})
+        for f in res['fail']:
+            print('ORACLE   :', f)
+        if res['fail']:
+            ctx.violation(res['fail'][0], {'kind': 'stream-hl', 'proto': rep['proto'], 'what': res['fail'], 'was': what})
         return
     if 'proto' not in rep or 'script' not in rep:
         print('nothing to replay in', path)
